@@ -945,11 +945,24 @@ impl<'a> Exec<'a> {
             None => cfg.unconditional_edge(h, t),
         });
         let what = format!("{}({}, {})", name, h, t);
+        let rejected = matches!(r, Ok(Err(_)));
+        let edges_before = self.snap.edges.clone();
         match r {
-            Ok(r) => self.expect(name, what, valid, &r)?,
-            Err(pi) => self.panic(name, what, pi)?,
+            Ok(r) => self.expect(name, what.clone(), valid, &r)?,
+            Err(pi) => self.panic(name, what.clone(), pi)?,
         }
-        self.look(name)
+        self.look(name)?;
+        // an edge creation that is refused created nothing: the edge set (ends and guards) is
+        // the one from before the call
+        if rejected && !valid && self.snap.edges != edges_before {
+            let changed: Vec<String> = edges_before
+                .iter()
+                .filter(|(k, c)| self.snap.edges.get(k) != Some(c))
+                .map(|(k, c)| format!("{}->{} was {:?}, now {:?}", k.0, k.1, c.as_ref().map(|c| c.to_string()), self.snap.edges.get(k).map(|c| c.as_ref().map(|c| c.to_string()))))
+                .collect();
+            self.report(name, "refused-creation-changed-the-edge-set", format!("{} was refused, yet the edge set changed: {:?}", what, changed))?;
+        }
+        Ok(())
     }
 
     fn apply(&mut self, op: &Op) -> Result<(), Failure> {
@@ -1704,6 +1717,7 @@ fn main() -> std::process::ExitCode {
         ("paths-compared-append-exit-has-out-edges", 0.12),
         ("insert", 0.10),
         ("invalid-call-rejected", 0.20),
+        ("duplicate-edge", 0.15),
         ("blockify-multi-instruction", 0.05),
         ("run-reaches-exit", 0.30),
     ];
